@@ -47,6 +47,8 @@ NUM_GROUPS = ["", ".{build_no}", "{build}", ".{MAJOR}.{MINOR}.{PATCH}"]
 REL_GROUPS = ["", "{release}", "-{release_tag}"]
 NAMED = ["{pycalver}", "{semver}", "v{year}{month}{build}{release}", "{year}{month}{build}{release}", "v{year}{build}{release}", "{year}{build}{release}"]
 PEP_MAPPED = NAMED
+# ({calver}{build}{release} is {pycalver} spelled out: no explicit mapping upstream, {pep440_version} then stands for the pycalver form)
+PEP_OK = PEP_MAPPED + ["{calver}{build}{release}"]
 BIDS = ["0001", "1001", "0999", "1999", "09999", "22000"]
 TAGS = ["final", "alpha", "beta", "rc", "dev", "post"]
 DATEKINDS = ("pin", "same", "+1d", "next-month", "next-year", "-1d", "-100d", "-400d")
@@ -80,7 +82,7 @@ def explore(tier, seed):
     chunks += [("chain", p, 1000 if tier == "thorough" else 200) for p in ("{pycalver}", "{semver}")]
     chunks += [("dispatch", p, tier) for p in NAMED + pats[len(NAMED) :: 11]]
     # (the last three: legacy patterns made only of upper-case placeholders - the engine choice of loader and commands must agree)
-    chunks += [("project-chain", p, 14 if tier == "quick" else 60) for p in PEP_MAPPED + ["{MAJOR}.{MINOR}.{PATCH}", "v{MAJOR}.{MINOR}", "r{MAJOR}"]]
+    chunks += [("project-chain", p, 14 if tier == "quick" else 60) for p in PEP_OK + ["{MAJOR}.{MINOR}.{PATCH}", "v{MAJOR}.{MINOR}", "r{MAJOR}"]]
     return pool.run_chunks(run_chunk, chunks)
 
 
@@ -295,7 +297,7 @@ def project_chain(st, pattern, length):
     old = L.render(pattern, state)
     pep_old = str(pv.Version(old)) if bg.is_pep440(old) else old
     # ({pep440_version} stands for the PEP 440 form of the named composite patterns only; other legacy patterns get the {version} entry alone)
-    with_pep = pattern in PEP_MAPPED
+    with_pep = pattern in PEP_OK
     cfg = (f'[bumpver]\ncurrent_version = "{old}"\nversion_pattern = "{pattern}"\n\n[bumpver.file_patterns]\n'
            '"bumpver.toml" = [\'current_version = "{version}"\']\n"setup.py" = ['
            + ('\'version="{pep440_version}"\', ' if with_pep else '') + '"tag {version} "]\n')
@@ -357,7 +359,7 @@ def dispatch(st, pattern, tier):
     date = dt.date(2020, 6, 15)
     state = state_for(pattern, date, "1001" if "bid" in fs else None, "beta" if "tag" in fs else None)
     old = L.render(pattern, state)
-    with_pep = pattern in PEP_MAPPED
+    with_pep = pattern in PEP_OK
     pats = ["ver={version};"] + (["pep={pep440_version};"] if with_pep else [])
     pep_old = ""
     if with_pep:
